@@ -421,6 +421,12 @@ def main(argv=None):
                    "evals": r.get("evals"), "replay_kind": o.replay, "replay_input": payload,
                    "replay_result": detail, "verdict": verdict or "no-failing-input-found",
                    "witness_class": wclass, "other_refuted_obligations_not_replayed": not_replayed}
+            if r.get("weakened") and verdict != "confirmed":
+                # candidate model of a weakened query: without a confirming replay it decides nothing
+                undecided.append((o.name, "solver unknown; a candidate counter-model of the quantifier-free part did not replay on the real code"
+                                  if verdict == "spurious" else "solver unknown; candidate counter-model of the quantifier-free part, no replay available"))
+                json.dump(doc, open(fname, "w"), indent=1, default=str)
+                continue
             if verdict == "spurious" and o.info.get("structural"):
                 # the obligation is a structural fact of the code (lock held, frame, ordering): the refutation stands even though
                 # the bounded replay could not turn it into a failing run
